@@ -350,7 +350,10 @@ def _clean_using_glob(
                 matches.remove(symlink_dir)
     # Now clean the rest
     for path in matches:
-        remove_dir_or_file(path)
+        if os.path.lexists(path):
+            # (else already gone along with a symlink dir target or a
+            # matching parent dir removed above)
+            remove_dir_or_file(path)
 
 
 def get_install_targets_map(
